@@ -219,7 +219,7 @@ def gains_bounded_instance():
 
     def make(B):
         return {'which': B.choose('which', ['cacgmm', 'cacgmm-ll', 'cwmm', 'cwmm-fit_predict', 'cbmm', 'vmfmm', 'gcacgmm', 'vmfcacgmm', 'cacg', 'watson', 'vmf']),
-                'range': B.choose('range', [(1e-3, 1e3), (1e-100, 1e100), (1e-100, 1e-90), (1e90, 1e100)]),
+                'range': B.choose('range', [(1e-3, 1e3), (1e-100, 1e100), (1e-100, 1e-90), (1e90, 1e100), (1 - 9e-6, 1 + 9e-6)]),
                 'it': B.choose('it', [1, 3, 8]), 'seed': B.choose('seed', list(range(3000))), 'd': B.given('d', np.zeros(1)),
                 'trainer': B.choose('trainer', ['fresh', 'dimension', 'reused'])}
 
